@@ -185,6 +185,36 @@ def main():
                                      dict(rp, where=where, defect=hd_), rp)
                     if opts.get("secular_relaxation") and where == "outside":
                         pass
+            # the same object calculated a second time (public initialize(),
+            # e.g. after a parameter of the system was changed): what it then
+            # holds is again a relaxation tensor the package has built
+            with ck.guarded("recalculated-tensor", theory, rp, rp):
+                RT3, _ = ag.get_RelaxationTensor(ta, relaxation_theory=theory,
+                                                 **opts)
+                done = False
+                if hasattr(RT3, "initialize") and not opts.get(
+                        "secular_relaxation"):
+                    try:
+                        RT3.initialize()
+                        done = True
+                    except TypeError:
+                        done = False
+                if done:
+                    if getattr(RT3, "as_operators", False):
+                        RT3.convert_2_tensor()
+                    d = numpy.array(RT3.data)
+                    sc = max(float(numpy.abs(d).max()), 1e-300)
+                    td_, hd_ = T.trace_defect(d) / sc, T.herm_defect(d) / sc
+                    ck.case("recalculated-tensor", (s, theory, str(opts)),
+                            sample=dict(rp, trace=td_, herm=hd_))
+                    if td_ > 1e-10:
+                        ck.violation("trace-preserving",
+                                     "recalculated:" + theory,
+                                     dict(rp, defect=td_), rp)
+                    if hd_ > 1e-10:
+                        ck.violation("hermiticity-preserving",
+                                     "recalculated:" + theory,
+                                     dict(rp, defect=hd_), rp)
             # secularisation clauses on the built (non-secular) tensor:
             # secularize() is applied inside the eigenbasis context and the
             # data before / after are compared in that same basis
